@@ -282,6 +282,18 @@ Theorem C16_desymref_forward : forall (outv : nat -> Z) (usef : nat -> list Z ->
 Proof. exact forward_preserves_block. Qed.
 Print Assumptions C16_desymref_forward.
 
+(* blocks that also use symbols of an ENCLOSING scope (not declared in the block; `decl` = the declared
+   ones): only the first unforwardable fetch and the last update of such a symbol survive; the values
+   computed and the final content of every enclosing-scope cell are preserved *)
+Theorem C16_desymref_forward2 : forall (outv : nat -> Z) (usef : nat -> list Z -> Z) (init : nat -> Z)
+    decl ops sy fe ue, wf_block ops [] = true ->
+  sym_run outv usef init (forward2 decl ops [] []) sy fe ue = sym_run outv usef init ops sy fe ue
+  /\ (forall s, existsb (Nat.eqb s) decl = false ->
+        sym_cell init (sym_final outv usef init (forward2 decl ops [] []) sy fe ue) s
+        = sym_cell init (sym_final outv usef init ops sy fe ue) s).
+Proof. exact forward2_preserves_block. Qed.
+Print Assumptions C16_desymref_forward2.
+
 (* ---------------------------------------------------------------- non-vacuity / witnesses *)
 (* zero-trip and negative ranges are covered by for_sem (no hypothesis lb < ub anywhere above) *)
 Example C16_zero_trip : for_sem (list Z) log_body 5 5 1 [] = [] /\ for_sem (list Z) log_body 3 (-4) 2 [] = []
